@@ -28,13 +28,13 @@ theorem compare_bits (l r : Expr) (neg : Bool) (g g' : GenState) (p : Pend)
   | false =>
     simp only [Bool.false_eq_true, if_false] at h
     rw [pure_ok] at h; cases h
-    refine ⟨ho, hs, by simp [Pend.OwnAll, ho], c0 ++ [hole], by rw [hc, List.append_assoc], ?_⟩
-    intro L hL
-    refine ⟨c0 ++ [{ oi.2 with off := (L : Int) - oi.1 - 1 }], by simp, ?_, ?_⟩
-    · intro pre rest hpre
+    refine ⟨ho, hs, by simp [Pend.OwnAll, ho],
+      fun m => c0 ++ [match m with | none => hole | some L => { oi.2 with off := (L : Int) - oi.1 - 1 }],
+      by rw [hc, List.append_assoc], fun m => by simp, ?_, ?_⟩
+    · intro m L pre rest hpre
       simp only [Pend.patch]
-      rw [horg, ← hpre, set_mid pre (c0 ++ [hole]) rest c0.length _ (by simp), set_last]
-    · intro σ
+      rw [horg, ← hpre, set_mid pre (c0 ++ [_]) rest c0.length _ (by simp), set_last]
+    · intro L hL σ
       have ht : 1 ≤ L - oi.1 := by omega
       obtain ⟨σ', hj, hk⟩ := atom_segment bitsBV Consts.op_JSET false l r oi.2 g.owners c0 (L - oi.1) j5 j0 j8 j9
         cond_jset hop hok.frag hst hrun ht σ
@@ -62,15 +62,16 @@ theorem compare_bits (l r : Expr) (neg : Bool) (g g' : GenState) (p : Pend)
       have e : g.code ++ c0 ++ [hole] ++ [hole] = g.code ++ (c0 ++ [hole, hole]) ++ [] := by simp
       rw [e, set_mid g.code (c0 ++ [hole, hole]) [] c0.length _ (by simp), set_last2]; simp
     have hown : g'.owners = g.owners := by rw [t3, ho]; exact inter_self _
-    refine ⟨hown, by rw [t2]; exact hs, ?_, _, hcode', ?_⟩
+    refine ⟨hown, by rw [t2]; exact hs, ?_,
+      fun m => c0 ++ [{ oi.2 with off := ((2 : Nat) : Int) - 1 },
+        match m with | none => hole | some L => ⟨Consts.op_JMP, 0, 0, (L : Int) - g1.code.length - 1, 0⟩],
+      hcode', fun m => by simp, ?_, ?_⟩
     · rw [t4]; simp [Pend.OwnAll, Pend.own, ho]
+    · intro m L pre rest hpre
+      simp only [Pend.patch]
+      rw [hlen1, ← hpre, Nat.add_assoc, set_mid pre _ rest (c0.length + 1) _ (by simp), set_last2']
     · intro L hL
       have hlen' : g'.code.length = g.code.length + c0.length + 2 := by rw [hcode']; simp; omega
-      refine ⟨c0 ++ [{ oi.2 with off := ((2 : Nat) : Int) - 1 }, ⟨Consts.op_JMP, 0, 0, (L : Int) - g1.code.length - 1, 0⟩],
-        by simp, ?_, ?_⟩
-      · intro pre rest hpre
-        simp only [Pend.patch]
-        rw [hlen1, ← hpre, Nat.add_assoc, set_mid pre _ rest (c0.length + 1) _ (by simp), set_last2']
       · intro σ
         obtain ⟨σ3, he, hr⟩ := hrun σ
         refine ⟨σ3, ?_, ⟨hr.frame, hr.mem⟩⟩
